@@ -68,7 +68,7 @@ func mtName(mt string) string {
 
 var chain = pki.SimpleChain("p256", 0, 2, "c13")
 
-var textLabels = []string{"io.example.a", "k", "", "x-très-long-" + strings.Repeat("é", 40), "日本語", "with space", "UPPER", "signingTime", "io.cncf.notary.custom", "crit2", "alg2", "a.b", "0", "1"}
+var textLabels = []string{"ALG", "Cty", "IO.CNCF.NOTARY.EXPIRY", "io.cncf.notary.SigningScheme", "io.example.a", "k", "", "x-très-long-" + strings.Repeat("é", 40), "日本語", "with space", "UPPER", "signingTime", "io.cncf.notary.custom", "crit2", "alg2", "a.b", "0", "1"}
 var intLabels = []int64{4, 8, 10, 13, 14, 17, 100, 255, 256, 65536, 4294967296, 9223372036854775807, -1, -2, -24, -25, -70000, -4294967297, -9223372036854775808}
 
 type valuePair struct {
@@ -306,9 +306,23 @@ func execute(r *core.Run, c *Case) {
 	r.Count("attribute-sets-confirmed", 1)
 }
 
-// hasDelicate marks cases whose rejection the statement does not exclude:
-// go-cose's own typed labels with a text label colliding etc. (none today).
-func hasDelicate(c *Case) bool { return false }
+// hasDelicate marks cases whose rejection the statement does not exclude.
+func hasDelicate(c *Case) bool {
+	// a JWS label that equals a specification header under case folding: the
+	// statement does not say such an envelope must be accepted (it must not be
+	// mis-surfaced if it is)
+	if c.MT != sims.JWS {
+		return false
+	}
+	for _, e := range c.Extras {
+		for _, s := range envcodec.JWSSpecHeaders {
+			if e.Label != s && strings.EqualFold(e.Label, s) {
+				return true
+			}
+		}
+	}
+	return false
+}
 
 func isSpecLabel(mt, l string) bool {
 	if mt == sims.JWS {
